@@ -2,11 +2,14 @@ package zygo
 
 import (
 	"bytes"
+	"encoding/json"
 	"fmt"
 	"github.com/shurcooL/go-goon"
 	"github.com/ugorji/go/codec"
+	"math"
 	"reflect"
 	"sort"
+	"strconv"
 	"strings"
 	"time"
 	"unsafe"
@@ -106,14 +109,45 @@ func SexpToJson(exp Sexp) string {
 	case *SexpArray:
 		return e.jsonArrayHelper()
 	case *SexpSymbol:
-		return `"` + e.name + `"`
-	default:
-		return exp.SexpString(nil)
+		return jsonQuote(e.name)
+	case *SexpStr:
+		// the language's own printer quotes the Go way (\x01, \a, ...), which is not JSON
+		return jsonQuote(e.S)
+	case *SexpFloat:
+		if !math.IsNaN(e.Val) && !math.IsInf(e.Val, 0) {
+			// the shortest spelling that reads back as the same float64
+			return strconv.FormatFloat(e.Val, 'g', -1, 64)
+		}
+	case *SexpSentinel:
+		if e == SexpNull {
+			return "null"
+		}
 	}
+	return exp.SexpString(nil)
+}
+
+// jsonQuote returns s as a JSON string literal.
+func jsonQuote(s string) string {
+	by, err := json.Marshal(s)
+	if err != nil {
+		return strconv.Quote(s)
+	}
+	return string(by)
+}
+
+// jsonKey is the member name a hash key is stored under in JSON.
+func jsonKey(key Sexp) string {
+	switch k := key.(type) {
+	case *SexpStr:
+		return k.S
+	case *SexpSymbol:
+		return k.name
+	}
+	return key.SexpString(nil)
 }
 
 func (hash *SexpHash) jsonHashHelper() string {
-	str := fmt.Sprintf(`{"Atype":"%s", `, hash.TypeName)
+	str := `{"Atype":` + jsonQuote(hash.TypeName) + `, `
 
 	ko := []string{}
 	n := len(hash.KeyOrder)
@@ -122,11 +156,11 @@ func (hash *SexpHash) jsonHashHelper() string {
 	}
 
 	for _, key := range hash.KeyOrder {
-		keyst := key.SexpString(nil)
+		keyst := jsonKey(key)
 		ko = append(ko, keyst)
 		val, err := hash.HashGet(nil, key)
 		if err == nil {
-			str += `"` + keyst + `":`
+			str += jsonQuote(keyst) + `:`
 			str += string(SexpToJson(val)) + `, `
 		} else {
 			panic(err)
@@ -135,7 +169,7 @@ func (hash *SexpHash) jsonHashHelper() string {
 
 	str += `"zKeyOrder":[`
 	for _, key := range ko {
-		str += `"` + key + `", `
+		str += jsonQuote(key) + `, `
 	}
 	if n > 0 {
 		str = str[:len(str)-2]
